@@ -42,27 +42,37 @@ Diagnose == "DIAG" \in DOMAIN IOEnv
 (* diagnosis run (IOEnv.DIAG) the names of the false clauses are printed,  *)
 (* so a rejection names what failed.  Prefix = the property it belongs to. *)
 (***************************************************************************)
-AllTrue(cl) == \A i \in DOMAIN cl : cl[i][2]
+(* A clause is <<property, name, truth>>.  IOEnv.WAIVE names a property whose clauses are NOT demanded in this run:  *)
+(* a trace that the faithful specification rejects on a clause of the OTHER property is validated a second time    *)
+(* with that property waived -- the state then FOLLOWS the observation in the fields that property is about (Follow *)
+(* below) -- so that the rest of the trace is still judged on the clauses of the property being decided.            *)
+Waive == IF "WAIVE" \in DOMAIN IOEnv THEN IOEnv.WAIVE ELSE "none"
+AllTrue(cl) == \A i \in DOMAIN cl : cl[i][3] \/ cl[i][1] = Waive
+Follow(t, e) ==
+  CASE Waive = "C04" -> [t EXCEPT !.fcalls = e.fcalls, !.real = e.real, !.nsm = e.nsm, !.dec = e.dec,
+                                  !.nem = IF t.evmon THEN e.nem ELSE t.nem, !.live = e.live, !.ncb = e.ncb]
+    [] Waive = "C05" -> [t EXCEPT !.limG = e.limG, !.limE = e.limE, !.term = e.term, !.exitreq = e.exit]
+    [] OTHER -> t
 Probe(cl) == Diagnose => PrintT(<<"@@", ToJson([probe |-> tid, at |-> l,
-                                   failing |-> {cl[i][1] : i \in {j \in DOMAIN cl : ~cl[j][2]}}])>>)
+                                   failing |-> {cl[i][2] : i \in {j \in DOMAIN cl : ~cl[j][3] /\ cl[j][1] # Waive}}])>>)
 
 (* observed fields equal the specification's post-state *)
 MatchClauses(t, e) == <<
-  <<"C04:evaluation-counter", t.fcalls = e.fcalls>>,
-  <<"C04:real-calls-ghost", t.real = e.real>>,
-  <<"C04:generation-counter", Gens(t) = e.gens>>,
-  <<"C04:step-monitor-length", t.nsm = e.nsm>>,
-  <<"C04:powell-history-decoupled", t.dec = e.dec>>,
-  <<"C04:evaluation-monitor-length", t.evmon => t.nem = e.nem>>,
-  <<"C04:objective-live-flag", t.live = e.live>>,
-  <<"C04:callback-count", Tr[1].cb => t.ncb = e.ncb>> >>
+  <<"C04", "C04:evaluation-counter", t.fcalls = e.fcalls>>,
+  <<"C04", "C04:real-calls-ghost", t.real = e.real>>,
+  <<"C04", "C04:generation-counter", Gens(t) = e.gens>>,
+  <<"C04", "C04:step-monitor-length", t.nsm = e.nsm>>,
+  <<"C04", "C04:powell-history-decoupled", t.dec = e.dec>>,
+  <<"C04", "C04:evaluation-monitor-length", t.evmon => t.nem = e.nem>>,
+  <<"C04", "C04:objective-live-flag", t.live = e.live>>,
+  <<"C04", "C04:callback-count", Tr[1].cb => t.ncb = e.ncb>> >>
 Match(t, e) == AllTrue(MatchClauses(t, e))
 
 FlagClauses(t, e) == <<
-  <<"C04:callback-argument-is-best", e.cb_ok>>,
-  <<"C04:energy-history-ends-in-best-energy", e.eh_last>>,
-  <<"C04:evaluation-monitor-equals-call-log", e.em_ok>>,
-  <<"C04:energy-history-nonincreasing", t.mono => e.eh_mono>> >>
+  <<"C04", "C04:callback-argument-is-best", e.cb_ok>>,
+  <<"C04", "C04:energy-history-ends-in-best-energy", e.eh_last>>,
+  <<"C04", "C04:evaluation-monitor-equals-call-log", e.em_ok>>,
+  <<"C04", "C04:energy-history-nonincreasing", t.mono => e.eh_mono>> >>
 
 (* evaluations of one iteration the kind allows (k are REAL calls: out-of-box points cost none) *)
 KOk(t, k, bounded) ==
@@ -98,7 +108,7 @@ TraceInit ==
 
 TraceCall ==
   /\ IsEvent("Call")
-  /\ LET cl == << <<"C05:call-while-running", s.pc = "idle">> >> IN Probe(cl) /\ AllTrue(cl)
+  /\ LET cl == << <<"C05", "C05:call-while-running", s.pc = "idle">> >> IN Probe(cl) /\ AllTrue(cl)
   /\ s.ncalls < MaxCalls
   /\ IF E.mode = "solve"
      THEN s' = CallF(KwAll(s, KwOf(E)), E.mode) /\ pend' = << >>      \* Solve: keywords first, then the call
@@ -112,16 +122,16 @@ TraceIter ==
          base == IF pend # << >> THEN BootF(KwAll(base0, pend)) ELSE base0
          k == E.real - s.real
          post == IterF(base, k, E.term, E.exit)
-         cl == << <<"C05:iteration-outside-a-call-or-after-it-stopped", running>>,
-                  <<"C05:step-iterated-twice", s.pc = "post" => s.mode = "solve">>,
-                  <<"C05:iteration-begun-past-stop-condition",
+         cl == << <<"C05", "C05:iteration-outside-a-call-or-after-it-stopped", running>>,
+                  <<"C05", "C05:step-iterated-twice", s.pc = "post" => s.mode = "solve">>,
+                  <<"C05", "C05:iteration-begun-past-stop-condition",
                         (s.pc = "post" => ~Stop(s)) /\ (base.nsm = 0 \/ ~Stop(base))>>,
-                  <<"C04:evaluations-per-iteration", KOk(base, k, E.bounded)>>,
-                  <<"C04:step-monitor-ends-in-best", ~post.dec => E.sm_last>> >>
+                  <<"C04", "C04:evaluations-per-iteration", KOk(base, k, E.bounded)>>,
+                  <<"C04", "C04:step-monitor-ends-in-best", ~post.dec => E.sm_last>> >>
                \o MatchClauses(post, E) \o FlagClauses(post, E)
      IN  /\ Probe(cl)
          /\ AllTrue(cl)
-         /\ s' = post
+         /\ s' = Follow(post, E)
          /\ pend' = << >>
 
 TraceRet ==
@@ -130,24 +140,24 @@ TraceRet ==
          post == CASE case = "prestop" -> [Resolve(s) EXCEPT !.pc = "idle", !.msg = Msg(s), !.began = FALSE, !.stopped = TRUE]
                    [] case = "poststop" -> PostStopF(s)
                    [] OTHER -> PostContinueF(s)
-         cl == << <<"C05:return-outside-a-call", s.pc \in {"pre", "post"}>>,
-                  <<"C05:returned-without-stepping-though-no-stop-condition",
+         cl == << <<"C05", "C05:return-outside-a-call", s.pc \in {"pre", "post"}>>,
+                  <<"C05", "C05:returned-without-stepping-though-no-stop-condition",
                         s.pc = "pre" => (s.nsm > 0 /\ Stop(s))>>,
-                  <<"C05:solve-returned-without-stop-condition", case = "continue" => s.mode = "step">>,
-                  <<"C05:stop-message-names-a-true-condition", post.msg = E.msg>>,
-                  <<"C05:limit-bookkeeping", post.limG = E.limG /\ post.limE = E.limE>>,
-                  <<"C05:termination-and-exit-flags-stable", post.term = E.term /\ post.exitreq = E.exit>>,
-                  <<"C04:stopped-step-monitor-ends-in-best", (post.stopped /\ ~post.dec) => E.sm_last>> >>
+                  <<"C05", "C05:solve-returned-without-stop-condition", case = "continue" => s.mode = "step">>,
+                  <<"C05", "C05:stop-message-names-a-true-condition", post.msg = E.msg>>,
+                  <<"C05", "C05:limit-bookkeeping", post.limG = E.limG /\ post.limE = E.limE>>,
+                  <<"C05", "C05:termination-and-exit-flags-stable", post.term = E.term /\ post.exitreq = E.exit>>,
+                  <<"C04", "C04:stopped-step-monitor-ends-in-best", (post.stopped /\ ~post.dec) => E.sm_last>> >>
                \o MatchClauses(post, E) \o FlagClauses(post, E)
      IN  /\ Probe(cl)
          /\ AllTrue(cl)
-         /\ s' = post
+         /\ s' = Follow(post, E)
          /\ pend' = << >>          \* a Step that stops at its pre-check never looks at its keywords
 
 CfgEvent(name, post) ==
   /\ IsEvent(name)
-  /\ LET cl == << <<"C05:configuration-call-while-running", CanCfg>> >> \o MatchClauses(post, E)
-     IN Probe(cl) /\ AllTrue(cl) /\ s' = post /\ UNCHANGED pend
+  /\ LET cl == << <<"C05", "C05:configuration-call-while-running", CanCfg>> >> \o MatchClauses(post, E)
+     IN Probe(cl) /\ AllTrue(cl) /\ s' = Follow(post, E) /\ UNCHANGED pend
 
 SetLimitsF(t, g, e, new) ==
   [t EXCEPT !.limG = IF g = None THEN (IF new THEN Star ELSE None) ELSE (IF new THEN g + Gens(t) ELSE g),
@@ -156,9 +166,9 @@ SetLimitsF(t, g, e, new) ==
 TraceSetLimits ==
   /\ IsEvent("SetLimits")
   /\ LET post == Cfg(SetLimitsF(s, E.g, E.e, E.new))
-         cl == << <<"C05:configuration-call-while-running", CanCfg>>,
-                  <<"C05:limit-bookkeeping", post.limG = E.limG /\ post.limE = E.limE>> >> \o MatchClauses(post, E)
-     IN Probe(cl) /\ AllTrue(cl) /\ s' = post /\ UNCHANGED pend
+         cl == << <<"C05", "C05:configuration-call-while-running", CanCfg>>,
+                  <<"C05", "C05:limit-bookkeeping", post.limG = E.limG /\ post.limE = E.limE>> >> \o MatchClauses(post, E)
+     IN Probe(cl) /\ AllTrue(cl) /\ s' = Follow(post, E) /\ UNCHANGED pend
 TraceSetCfg    == CfgEvent("SetCfg", Cfg([Restale(s, E.what) EXCEPT !.term = E.term, !.mono = s.mono /\ E.what # "objchange"]))
 TraceFinalize  == CfgEvent("Finalize", Cfg(FinalizeF(s)))
 TraceSetEvalMon == CfgEvent("SetEvalMon",
@@ -179,14 +189,14 @@ TraceWrap ==
   /\ LET t == [s EXCEPT !.limG = E.g, !.limE = E.e, !.nsm = E.nsm, !.dec = FALSE, !.nem = E.nem,
                          !.fcalls = E.fcalls, !.real = E.real, !.ncb = E.ncb, !.iters = E.gens]
          maxk == CASE s.kind \in {"DE", "DE2"} -> s.np [] s.kind = "NM" -> s.dim + 2 [] OTHER -> 1000000
-         cl == << <<"C04:evaluation-counter", E.fcalls = E.real>>,
-                  <<"C04:evaluation-monitor-length", E.nem = E.real>>,
-                  <<"C04:step-monitor-length", E.nsm = E.gens + 1>>,
-                  <<"C04:callback-count", Tr[1].cb => E.ncb = E.gens + 1>>,
-                  <<"C05:warnflag-names-a-true-condition", E.warnflag = WarnFlag(t)>>,
-                  <<"C05:generation-limit-exceeded", E.gens <= ResG(t)>>,
-                  <<"C05:evaluation-limit-overshoot", E.fcalls < ResE(t) + maxk>>,
-                  <<"C05:returned-without-stop-condition", E.mustlimit => WarnFlag(t) # 0>> >>
+         cl == << <<"C04", "C04:evaluation-counter", E.fcalls = E.real>>,
+                  <<"C04", "C04:evaluation-monitor-length", E.nem = E.real>>,
+                  <<"C04", "C04:step-monitor-length", E.nsm = E.gens + 1>>,
+                  <<"C04", "C04:callback-count", Tr[1].cb => E.ncb = E.gens + 1>>,
+                  <<"C05", "C05:warnflag-names-a-true-condition", E.warnflag = WarnFlag(t)>>,
+                  <<"C05", "C05:generation-limit-exceeded", E.gens <= ResG(t)>>,
+                  <<"C05", "C05:evaluation-limit-overshoot", E.fcalls < ResE(t) + maxk>>,
+                  <<"C05", "C05:returned-without-stop-condition", E.mustlimit => WarnFlag(t) # 0>> >>
      IN Probe(cl) /\ AllTrue(cl) /\ s' = [Resolve(t) EXCEPT !.pc = "idle", !.stopped = TRUE] /\ UNCHANGED pend
 
 TraceNext == \/ TraceWrap \/ TraceCall \/ TraceIter \/ TraceRet \/ TraceSetLimits \/ TraceSetCfg \/ TraceFinalize
